@@ -3,7 +3,8 @@
    level, C11): node OBJECTS with the code's flags shared / dirty, trees that
    reach objects by pointer or by name, the node cache that hands the same
    deserialized object to every tree loading a name, Clone (ToShared), the
-   path copy of savePathForRoot (ToMut), follow(createOk), MakeRoot.
+   path copy of savePathForRoot (ToMut), follow(createOk), MakeRoot, and the
+   eviction of cache entries (the same name then gets a second object).
    Two-level trees (a top node with one child slot) are enough to exhibit
    every sharing pattern: a tree's object is reachable by another tree through
    Clone or through the cache.  Each tree belongs to one goroutine; a write to
@@ -13,7 +14,7 @@
    possibly shared node (follow(createOk) storing the new child link into the
    node it was given, lib.go:249-251); it must make the invariants fail.     *)
 EXTENDS Integers, Sequences, FiniteSets, TLC
-CONSTANTS Trees, MaxObj, Names, Deviations, UseCache
+CONSTANTS Trees, MaxObj, Names, Deviations, UseCache, Evicting
 Obj == 1..MaxObj
 NoObj == 0
 \* link: [t |-> "nil"] | [t |-> "ptr", o |-> Obj] | [t |-> "name", n |-> Names]
@@ -127,7 +128,14 @@ Persist(t) ==
      /\ root' = [root EXCEPT ![t] = Nm(nextName)] /\ nextName' = nextName + 1
   /\ UNCHANGED alive
 
-Next == \E t \in Trees : New(t) \/ LoadTop(t) \/ ModifyTop(t) \/ InsertBelowNil(t) \/ Persist(t) \/ \E u \in Trees \ {t} : Clone(t, u)
+\* the cache is an LRU (node_cache.go): it may drop any entry at any time; the object stays with the trees that hold it, and the
+\* next tree to load the name deserializes a second object for it
+Evict(n) == /\ UseCache /\ Evicting /\ cache[n] # NoObj
+            /\ cache' = [cache EXCEPT ![n] = NoObj]
+            /\ UNCHANGED <<heap, root, alive, stored, nextName, badWrite>>
+
+Next == (\E t \in Trees : New(t) \/ LoadTop(t) \/ ModifyTop(t) \/ InsertBelowNil(t) \/ Persist(t) \/ \E u \in Trees \ {t} : Clone(t, u))
+        \/ \E n \in Names : Evict(n)
 Spec == Init /\ [][Next]_vars
 
 SharedObjectsNeverWritten == badWrite = {}
